@@ -55,7 +55,9 @@ ERR = ("error", "'ERROR'")
 
 class Model:
     """reference session"""
-    def __init__(self):
+    def __init__(self, variant=0):
+        self.step = 10 if variant == 1 else 1
+        self.factor = 3 if variant == 1 else 2
         self.b = {}          # bindings: name -> value (ints) ; 'f' -> True
         self.good = None     # None | counter
         self.helper = False
@@ -97,7 +99,7 @@ class Model:
                 self.loadlog.append("good")
                 self.good = 0
             b["good"] = True
-            self.good += 1
+            self.good += self.step
             return ("value", str(self.good))
         if name == "req-missing":
             return ERR
@@ -130,7 +132,7 @@ class Model:
         if p == "good->get()":
             return ("value", str(self.good)) if "good" in b else ERR
         if p == "good->dbl(4)":
-            return ("value", "8") if "good" in b else ERR
+            return ("value", str(4 * self.factor)) if "good" in b else ERR
         if p == "string(LOADLOG)":
             return ("value", "'[" + ", ".join("\\'%s\\'" % m for m in self.loadlog) + "]'")
         raise ValueError(p)
@@ -162,9 +164,13 @@ class Session:
         return (o.kind, type(o.exc).__name__ if o.exc is not None else "")
 
 
-def write_modules(moddir):
+def write_modules(moddir, variant=0):
+    """variant 1: same module names, different code (interpreter 1 of a pair has its own module path:
+    interpreters must not see each other's modules even when the names coincide)"""
     os.makedirs(moddir, exist_ok=True)
     for name, src in MODULES.items():
+        if variant == 1:
+            src = src.replace("counter += 1", "counter += 10").replace("n * 2", "n * 3")
         with open(os.path.join(moddir, name + ".ckl"), "w") as f:
             f.write(src)
 
@@ -177,8 +183,8 @@ def residue_kind(name):
 
 def run_history(ctx, moddir, hist, two=False, caller_env=False):
     """hist: list of (interpreter index, command index)"""
-    sessions = [Session(moddir, caller_env) for _ in range(2 if two else 1)]
-    models = [Model() for _ in sessions]
+    sessions = [Session(moddir if i == 0 else moddir + "_b", caller_env) for i in range(2 if two else 1)]
+    models = [Model(variant=i) for i in range(len(sessions))]
     prev_fail = "none"
     ctx.count("histories")
     nontrivial = any(residue_kind(COMMANDS[c][0]) != "none" for s, c in hist[:-1])
@@ -223,6 +229,7 @@ def plan(tier, seed):
 def run_shard(spec, ctx):
     moddir = os.path.join(os.getcwd(), "mods")
     write_modules(moddir)
+    write_modules(moddir + "_b", variant=1)
     n = len(COMMANDS)
     if spec["kind"] == "one":
         idx = 0
